@@ -46,6 +46,8 @@ type Opts struct {
 	EncAlg     string
 	MetaIDP    *provider.MetadataIDPConfig
 	World      *sim.World
+	// IssuerFactory overrides the issuer selection (a factory value shared between providers).
+	IssuerFactory func(bool) (provider.IssuerFromRequest, error)
 }
 
 // Env is one provider instance over one world.
@@ -81,6 +83,8 @@ func New(o Opts) (*Env, error) {
 	}
 	var iss func(bool) (provider.IssuerFromRequest, error)
 	switch {
+	case o.IssuerFactory != nil:
+		iss = o.IssuerFactory
 	case o.Issuer != "":
 		iss = provider.StaticIssuer(o.Issuer)
 	case o.UseFwd:
@@ -145,6 +149,8 @@ type Req struct {
 	CT      string // content type ("" = form for non-empty body on POST)
 	Headers map[string][]string
 	Tag     string
+	// FailWriteAfter > 0 makes the ResponseWriter fail after that many body bytes.
+	FailWriteAfter int
 }
 
 // Do executes the request in the calling goroutine, recovering panics.
@@ -192,6 +198,7 @@ func (e *Env) Do(rq Req) *Call {
 	}
 	r = r.WithContext(sim.WithTag(r.Context(), tag))
 	c := &Call{Tag: tag, Method: rq.Method, Path: rq.Path, Query: rq.Query, Host: rq.Host, Body: rq.Body, Hdr: h, Rec: reply.NewRecorder()}
+	c.Rec.FailAfter = rq.FailWriteAfter
 	c.T0 = time.Now()
 	func() {
 		defer func() {
